@@ -109,8 +109,8 @@ def terminal (sc : Scen) (s : SSt) : Option (List Nat) :=
   if s.ph ≥ sc.length then some (s.outs.reverse ++ [s.dials]) else none
 
 def code (s : SSt) : Nat :=
-  let small := pack [(s.ph, 16), (s.remP, 8), (s.remX, 8), (s.cur, 3), (s.fE, 4), (s.fR, 4), (s.fW, 4),
-    (s.fF, 4), (s.fD, 4), (s.okP, 8), (s.errP, 8), (s.okX, 8), (s.errX, 8), (s.dials, 64)]
+  let small := pack [(s.ph, 16), (s.remP, 8), (s.remX, 8), (s.cur, 3), (s.fE, 8), (s.fR, 8), (s.fW, 8),
+    (s.fF, 8), (s.fD, 8), (s.okP, 8), (s.errP, 8), (s.okX, 8), (s.errX, 8), (s.dials, 64)]
   let outs := s.outs.foldl (fun acc x => acc * 8 + x + 1) 0
   (outs * 2 ^ 64 + small) * 2 ^ 80 + CliConn.code s.st
 
